@@ -496,6 +496,16 @@ func (ex *Exec) applyFunc(st *State, fn *types.Func, args []*Val, e *ast.CallExp
 	for _, k := range hookKeys(fn) {
 		ex.runHooks(st, "enter", k, args, nil, pos)
 	}
+	// structured concurrency: errgroup-style Go/Wait
+	if key == "errgroup.Group.Go" || key == "ctxerrgroup.Group.Go" {
+		if len(args) == 2 && args[1].Lit != nil && e != nil {
+			ex.spawnInGroup(st, e, args[1], pos)
+			return nil
+		}
+	}
+	if key == "errgroup.Group.Wait" || key == "ctxerrgroup.Group.Wait" {
+		ex.joinGroup(st, e)
+	}
 	// Go-coded library models
 	if m, ok := libModels[key]; ok {
 		res, handled := m(ex, st, fn, args, e)
@@ -711,6 +721,8 @@ func (ex *Exec) applyContract(st *State, fn *types.Func, fs *FuncSpec, u *Unit, 
 		if pureRes != nil {
 			r = pureRes[i]
 			ex.wf(st, r)
+		} else if i < len(fs.Results) && fs.Allocates[fs.Results[i]] && isRefLike(sig.Results().At(i).Type()) {
+			r = &Val{T: sig.Results().At(i).Type(), Term: ex.newRef(st)}
 		} else {
 			r = ex.freshVal(st, name, sig.Results().At(i).Type())
 		}
@@ -1125,4 +1137,71 @@ func mentionsIdent(src string, names map[string]bool) bool {
 
 func constantInt64(tv types.TypeAndValue) (int64, bool) {
 	return constant.Int64Val(constant.ToInt(tv.Value))
+}
+
+// groupKey names the errgroup a Go/Wait call is made on.
+func groupKey(e *ast.CallExpr) string {
+	if e == nil {
+		return "?"
+	}
+	if sel, ok := ast.Unparen(e.Fun).(*ast.SelectorExpr); ok {
+		return exprText(sel.X)
+	}
+	return "?"
+}
+
+// spawnInGroup verifies a goroutine body on a copy of the state: what the
+// parent knows at the spawn point is known to the child, but nothing the child
+// establishes (ghost state) is known to the parent or to sibling goroutines
+// until the group's Wait returns.
+func (ex *Exec) spawnInGroup(st *State, e *ast.CallExpr, lit *Val, pos token.Pos) {
+	key := groupKey(e)
+	child := st.clone()
+	child.frames = append([]*Frame(nil), st.frames...)
+	prefix := len(st.pc)
+	ex.runHooks(child, "go", "func", nil, nil, pos)
+	ex.inlineClosure(child, lit, nil, pos)
+	delta := &groupDelta{ghost: map[string]*Val{}, base: map[string]*Val{}}
+	for k, v := range child.ghost {
+		if pv, ok := st.ghost[k]; !ok || pv.Term != v.Term {
+			delta.ghost[k] = v
+			delta.base[k] = pv
+		}
+	}
+	if len(child.pc) > prefix && !child.dead {
+		delta.facts = append(delta.facts, child.pc[prefix:]...)
+	}
+	if st.groups == nil {
+		st.groups = map[string][]*groupDelta{}
+	}
+	st.groups[key] = append(append([]*groupDelta(nil), st.groups[key]...), delta)
+	ex.W.Trusted["errgroup.Group: Go starts the function in a new goroutine; Wait returns only after every such function has returned (happens-before edge); goroutine bodies are verified against the spawn-time state and their ghost effects become visible at Wait"] = true
+}
+
+func (ex *Exec) joinGroup(st *State, e *ast.CallExpr) {
+	key := groupKey(e)
+	for _, d := range st.groups[key] {
+		for _, f := range d.facts {
+			st.assume(f)
+		}
+		// ghost effects of a goroutine are merged as monotone flags (bool:
+		// or) and counters (int: sum of increments); anything else is last-writer
+		for k, v := range d.ghost {
+			cur, base := st.ghost[k], d.base[k]
+			switch {
+			case cur != nil && v.Term.S == SBool:
+				st.ghost[k] = &Val{T: v.T, Term: or(cur.Term, v.Term)}
+			case cur != nil && base != nil && v.Term.S == SInt && !isRefLike(v.T):
+				st.ghost[k] = &Val{T: v.T, Term: add(cur.Term, sub(v.Term, base.Term))}
+			default:
+				st.ghost[k] = v
+			}
+		}
+	}
+}
+
+type groupDelta struct {
+	base  map[string]*Val
+	ghost map[string]*Val
+	facts []*Term
 }
